@@ -71,9 +71,9 @@ PROPS = {
     'C13': dict(jobs=[('sim', 'real', .8), ('pause_sample', 'real', .2)], quick_n=700,
                 rule='completed run where >=1 full causal chain was checked',
                 nontrivial=lambda o: o['probes'].get('causal_chains_checked') or o['probes'].get('pause_points')),
-    'C14': dict(jobs=[('sim', 'general', 1.0)], quick_n=3000,
-                rule='plan with >=4 nodes and a join (node with >=2 predecessors)',
-                nontrivial=lambda o: o['probes'].get('plan_with_join')),
+    'C14': dict(jobs=[('sim', 'general', .6), ('plandrv', 'general', .4)], quick_n=3500,
+                rule='plan with >=4 nodes and a join (node with >=2 predecessors), or several observations planned at the same clock by direct planner calls',
+                nontrivial=lambda o: o['probes'].get('plan_with_join') or o['probes'].get('same_clock_plans')),
     'C15': dict(jobs=[('delaymodel', '-', .6), ('sim', 'delay', .4)], quick_n=2500,
                 rule='delay-model case where a draw fired, or a simulation in which a task was actually delayed',
                 nontrivial=lambda o: o['probes'].get('draws_fired') or o['probes'].get('delayed_task')),
@@ -294,7 +294,7 @@ def _run_property(pid, tier, seed, budget_s, workers, scale, out):
     viols = []
     jobs = spec['jobs']
     cursor = {j: 0 for j in jobs}
-    chunk = {'sim': 20, 'cluster_ops': 150, 'buffer_ops': 150, 'repro': 3, 'pause': 2, 'pause_sample': 6, 'units': 10, 'delaymodel': 100, 'taskdrv': 200}
+    chunk = {'sim': 20, 'cluster_ops': 150, 'buffer_ops': 150, 'repro': 3, 'pause': 2, 'pause_sample': 6, 'units': 10, 'delaymodel': 100, 'taskdrv': 200, 'plandrv': 60}
     timeout = {'sim': 600, 'repro': 900, 'pause': 1800, 'pause_sample': 900, 'units': 900}    # backstop only (dead worker => exit 2)
     submitted = 0
     pending = set()
